@@ -95,6 +95,10 @@ fn payloads() -> Vec<Payload> {
     .collect()
 }
 
+pub fn payload0() -> Payload {
+    payloads().remove(0)
+}
+
 fn colors() -> Vec<Color> {
     vec![Color::Red, Color::Green, Color::DarkBlue, "OTHER_1".parse().unwrap()]
 }
